@@ -32,12 +32,12 @@ type CEnv struct {
 	old   *State
 	vars  map[string]CVal
 	bound map[string]CVal // quantifier / let variables (innermost scope)
-	scope token.Pos // position for local-name lookup (0: none)
+	scope token.Pos       // position for local-name lookup (0: none)
 	inOld bool
 	what  string
 	// assumeFresh: fresh(x) introduces a new allocation (callee contract being assumed at a call site)
 	assumeFresh bool
-	li    *loopInfo
+	li          *loopInfo
 }
 
 // inLoopHead: the range counter belonging to loop li is the one incremented in its head block.
@@ -275,6 +275,17 @@ func (e *CEnv) Eval(x *CExpr) CVal {
 			n.bound[v.Name] = cv
 		}
 		body := n.Bool(x.Args[0])
+		if len(x.Args) > 1 {
+			var pat []*Term
+			for _, pe := range x.Args[1:] {
+				if t, ok := n.Eval(pe).V.(*Term); ok {
+					pat = append(pat, t)
+				}
+			}
+			if len(pat) > 0 {
+				return CVal{V: c.Quant(x.Op, bound, body, pat), T: types.Typ[types.Bool]}
+			}
+		}
 		return CVal{V: c.Quant(x.Op, bound, body), T: types.Typ[types.Bool]}
 	case "un":
 		return e.unary(x)
@@ -1605,12 +1616,21 @@ type arrOrigin struct {
 // through a join (ite of heap families), through a copy (the copied window denotes the source's bytes) and
 // through any write elsewhere (bytes outside the written window are those of the previous array).
 func (fx *FnExec) rngBackward(t, arr, off, ln, ref *Term) {
-	if fx.rngDepth > 14 {
+	if fx.rngDepth == 0 {
+		fx.rngBudget = 160 // expansions per demanded byte string (the possibly-aliased case doubles the chain)
+	}
+	if fx.rngDepth > 14 || fx.rngBudget <= 0 {
 		return
 	}
+	fx.rngBudget--
 	fx.rngDepth++
 	defer func() { fx.rngDepth-- }()
 	c := fx.c
+	if arr.Op == "ite" {
+		// a conditional array (the simplifier distributes a read of a joined heap family over the join)
+		fx.assumeGlobal(c.Eq(t, c.Ite(arr.Args[0], fx.rngTermRef(arr.Args[1], off, ln, ref), fx.rngTermRef(arr.Args[2], off, ln, ref))))
+		return
+	}
 	if arr.Op == "select" && arr.Args[0].Op == "ite" {
 		fam := arr.Args[0]
 		idx := arr.Args[1]
@@ -1623,10 +1643,22 @@ func (fx *FnExec) rngBackward(t, arr, off, ln, ref *Term) {
 		// the array of object idx read through an update of ANOTHER object's array
 		fam := arr.Args[0]
 		idx := arr.Args[1]
+		same := c.Eq(fam.Args[1], idx)
+		ne := c.Not(same)
+		if same.IsTrue() {
+			fx.assumeGlobal(c.Eq(t, fx.rngTermRef(fam.Args[2], off, ln, idx)))
+			return
+		}
 		inner := c.Select(fam.Args[0], idx)
-		ne := c.Not(c.Eq(fam.Args[1], idx))
 		eq := c.Eq(t, fx.rngTermRef(inner, off, ln, idx))
 		fx.assumeGlobal(c.Implies(ne, eq))
+		if _, partial := fx.arrOrigins[fam.Args[2]]; partial && fam.Args[2].Sort == byteArr && fx.followAliases {
+			// the two references may be the same object (e.g. a tag that lies in the ciphertext's array) and the
+			// stored array is a PARTIAL update of that object's previous contents (a copy or a range frame): the
+			// byte string is then read from the stored array, whose own origin is followed in turn
+			eq2 := c.Eq(t, fx.rngTermRef(fam.Args[2], off, ln, idx))
+			fx.assumeGlobal(c.Implies(same, eq2))
+		}
 		return
 	}
 	o, ok := fx.arrOrigins[arr]
